@@ -146,7 +146,12 @@ impl Walk {
     }
     fn fail(&mut self, tags: &[&'static str], i: usize, q: &str, r: &str, why: String) {
         let reply = if r.len() > 400 { format!("{}...", &r[..400]) } else { r.to_string() };
-        self.out.push(Tagged { tags: tags.to_vec(), f: Failure { line_no: i + 1, request: q.to_string(), reply, why } });
+        let mut tags = tags.to_vec();
+        if self.is_foreign && !tags.contains(&"C02") {
+            // a database from the independent encoder must also be *usable* as what it encodes
+            tags.push("C02");
+        }
+        self.out.push(Tagged { tags, f: Failure { line_no: i + 1, request: q.to_string(), reply, why } });
     }
 
     pub fn step(&mut self, i: usize, q: &str, r: &str) {
@@ -527,6 +532,7 @@ impl Walk {
         }
         if let Some(exp) = self.loaded.take() {
             // C02: opening reports exactly the encoded tables, column definitions and rows
+            let failures_before = self.out.len();
             let have: Vec<&String> = snap.tables.keys().filter(|n| *n != "_Tables" && *n != "_Columns").collect();
             let want: Vec<&String> = exp.keys().collect();
             if have != want {
@@ -550,6 +556,15 @@ impl Walk {
                         Err(e) => self.fail(&["C02"], i, q, r, format!("table {n} cannot be read: {e}")),
                     }
                 }
+            }
+            if self.out.len() == failures_before {
+                // from here on the relational reference follows the decoded database, so edits
+                // through the API are checked against what the file encodes
+                self.db = RefDb::default();
+                for (n, (cols, rows)) in exp.iter().filter(|e| e.0 != "_Validation") {
+                    self.db.tables.insert(n.clone(), RefTable { cols: cols.clone(), rows: rows.clone() });
+                }
+                self.db_known = true;
             }
             if snap.streams != self.loaded_streams {
                 self.fail(&["C02"], i, q, r, format!("streams reported {:?}, the file holds {:?}", snap.streams.keys().collect::<Vec<_>>(), self.loaded_streams.keys().collect::<Vec<_>>()));
@@ -874,7 +889,9 @@ impl Walk {
                 }
                 let last = self.last_snap.clone();
                 if let Some((_, snap)) = &last {
-                    if d.cp_id as i64 != snap.cp {
+                    // id 0 is the format's "default", which the library reports (and treats) as UTF-8
+                    let on_disk = if d.cp_id == 0 { 65001 } else { d.cp_id as i64 };
+                    if on_disk != snap.cp {
                         self.fail(&["C08", "C01"], i, q, r, format!("pool header says code page {}, the API {}", d.cp_id, snap.cp));
                     }
                     let mut fails = vec![];
